@@ -877,13 +877,16 @@ func (tr *Translator) substr(s, lo, hi Sx) Sx {
 	c := tr.c
 	it := c.it
 	c.declFun("ssub", []Sx{"Str", it.isort(), it.isort()}, "Str")
-	n := c.define("sub", "Str", sx("ssub", s, lo, hi))
-	c.axiom(n, imp(and(it.le(I64, it.iconst(0), lo), it.le(I64, lo, hi), it.le(I64, hi, sx("slen", s))), eq(sx("slen", n), it.sub(I64, hi, lo))))
+	// a declared constant (not a macro) so that it can appear in quantifier patterns even when
+	// the bounds are ite-terms; equal operands still give equal strings through ssub
+	n := c.declConst("sub", "Str")
+	c.axiom(n, eq(n, sx("ssub", s, lo, hi)))
+	inb := and(it.le(I64, it.iconst(0), lo), it.le(I64, lo, hi), it.le(I64, hi, sx("slen", s)))
+	c.axiom(n, imp(inb, eq(sx("slen", n), it.subNW(hi, lo))))
 	c.softAxiom(n, and(
-		imp(and(it.le(I64, it.iconst(0), lo), it.le(I64, lo, hi), it.le(I64, hi, sx("slen", s))),
-			and(eq(sx("slen", n), it.sub(I64, hi, lo)),
-				fmt.Sprintf("(forall ((k %s)) (! (=> (and %s %s) (= (sat %s k) (sat %s %s))) :pattern ((sat %s k))))",
-					it.isort(), it.le(I64, it.iconst(0), "k"), it.lt(I64, "k", sx("slen", n)), n, s, it.add(I64, lo, "k"), n))),
+		imp(inb,
+			fmt.Sprintf("(forall ((k %s)) (! (=> (and %s %s) (= (select (sbytes %s) k) (select (sbytes %s) %s))) :pattern ((select (sbytes %s) k))))",
+				it.isort(), it.le(I64, it.iconst(0), "k"), it.lt(I64, "k", sx("slen", n)), n, s, it.addNW(lo, "k"), n)),
 		imp(and(eq(lo, it.iconst(0)), eq(hi, sx("slen", s))), eq(n, s))))
 	return n
 }
